@@ -40,7 +40,8 @@ def backing(prog, T, expr, fc, depth=0):
                 for n in ast.walk(ln.node):
                     if isinstance(n, ast.Return) and isinstance(n.value, ast.Call) and isinstance(n.value.func, ast.Attribute) \
                             and n.value.func.attr == "__len__":
-                        return "%s.%s" % (a[1].name.lstrip("_"), dotted(n.value.func.value).replace("self.", ""))
+                        fld = dotted(n.value.func.value).replace("self.", "")
+                        return "%s.%s" % (_field_owner(prog, a[1], fld).name.lstrip("_"), fld)
     if not t and isinstance(expr, ast.Attribute) and dotted(expr.value) == "self" and expr.attr in ("_series", "_chart_data"):
         # the writers' documented input: a series / chart data object of pptx.chart.data (unannotated)
         dm = prog.modules.get("pptx.chart.data")
@@ -71,9 +72,21 @@ def backing(prog, T, expr, fc, depth=0):
                     for n in ast.walk(g.node):
                         if isinstance(n, ast.Return) and isinstance(n.value, (ast.ListComp, ast.GeneratorExp)):
                             src = n.value.generators[0].iter
-                            return "%s.%s" % (g.cls.name.lstrip("_"), dotted(src).replace("self.", ""))
+                            fld = dotted(src).replace("self.", "")
+                            return "%s.%s" % (_field_owner(prog, g.cls, fld).name.lstrip("_"), fld)
         return ast.unparse(expr)
     return ast.unparse(expr)
+
+
+def _field_owner(prog, cls, field):
+    """Root-most class of cls's MRO that assigns self.<field> (so that one storage location has one name whichever
+    subclass the receiver was typed as)."""
+    owner = cls
+    for c in prog.mro(cls):
+        for f in getattr(c, "methods", {}).values():
+            if any(isinstance(n, ast.Assign) and any(dotted(t) == "self." + field for t in n.targets) for n in ast.walk(f.node)):
+                owner = c
+    return owner
 
 
 def run(ctx, prog, S, M, T, all_markers):
